@@ -11,6 +11,7 @@ import (
 	"context"
 	"fmt"
 	"net"
+	"regexp"
 	"sort"
 	"strings"
 	"testing"
@@ -73,6 +74,8 @@ func c14Spell(base string, form int) string {
 	}
 	return base
 }
+
+var c14LegacyRe = regexp.MustCompile(`(?i)^legacy-(.+)$`)
 
 var c14Passwords = []string{"secret", "", "пароль-ü", strings.Repeat("long-password-", 6), "secret ", "Secret", "p w\t", "other",
 	// longer than bcrypt's 72-byte limit, equal in the first 72 bytes; exactly 72 and 73 bytes
@@ -192,8 +195,13 @@ func c14Run(sc c14Scenario) (vs []ev.V) {
 			v, ok := c14Static[key]
 			return v, ok
 		case "regexp":
-			if strings.HasPrefix(key, "legacy-") && len(key) > len("legacy-") {
-				return key[len("legacy-"):], true
+			// table.regexp: full match, case-insensitive by default (documented); what follows the prefix is
+			// handed to the provider, which normalises it by itself
+			if m := c14LegacyRe.FindStringSubmatch(key); m != nil {
+				if b := c14Bases[op.User]; strings.HasPrefix(b, "legacy-") {
+					return b[len("legacy-"):], true
+				}
+				return m[1], true
 			}
 			return "", false
 		}
